@@ -4,12 +4,12 @@ from harness import common, codecio, oracles, gens
 from harness.common import Stream, hexb
 
 PID = "C07"
-LEAN_MODULES = ["Astm.Proofs.C07", "Astm.State.C07"]
+LEAN_MODULES = ["Astm.Proofs.C07", "Astm.State.C07", "Astm.Surface.C07"]
 THEOREMS = [
     "Astm.C07.encode_message_shape", "Astm.C07.encoded_checksum_verifies", "Astm.C07.decode_encode_message",
     "Astm.C07.iter_encode_numbering", "Astm.C07.latin1_lawful", "Astm.C07.ascii_lawful", "Astm.C07.utf8_lawful", "Astm.C07.cp1251_lawful",
     "Astm.C07.shipped_encodings_lawful", "Astm.C07.example_message",
-    "Astm.C07.anchored_code_keeps_no_other_state",
+    "Astm.C07.anchored_code_keeps_no_other_state", "Astm.C07.anchored_code_keeps_its_signatures",
 ]
 RULE = ("record lists over canonical field trees (text, null, components, repeated components, numbers) x encodings "
         "{latin-1, utf-8, cp1251, ascii} x sequence numbers 0..64; bounded-exhaustive small trees over a 5-symbol "
